@@ -183,6 +183,11 @@ func bgvLeaf(c *engine.Chooser, scName string, cfg *bgvCfg) {
 	declare := sh.parity != 0 && (cfg.declared || c.Bool("declareParity"))
 	nilHoles := c.Bool("nilHoles") // zero coefficients handed over as nil (absent) coefficients
 	coeffKind := c.Choose(3, "coeffs")
+	if t > 1<<53 {
+		// with a plaintext modulus above 2^53 the edge alphabet is the ordinary one (so that it combines with every
+		// other single deviation: entry points, levels, scales, kinds)
+		coeffKind = []int{1, 2, 0}[coeffKind]
+	}
 	c.Cover("bgv-coeffs", []string{"small", "edge", "unreduced"}[coeffKind])
 	if t > 1<<53 {
 		c.Cover("bgv-t", ">2^53")
